@@ -348,12 +348,14 @@ def run_core(c):
     gm = c['gap_model']
     seed = c.get('seed', 0)
     # per-type coordinates and base power weights per position
-    types = {t: tdesign({'A': 'single', 'B': 'B', 'D': 'bypass', 'S': 'six', 'T': 'one'}[t])
+    types = {t: tdesign({'A': 'single', 'B': 'B', 'D': 'bypass', 'S': 'six', 'T': 'one', 'U': 'U'}[t])
              for t in sorted(set(x for x in lay if x))}
     coord = {}
     for t in types:
+        # (the low-fidelity type is the same bundle: its pin / cell coordinates are those of the pin-bundle build)
+        tdef = tdesign('single') if t == 'U' else types[t]
         scn = {'setup': {}, 'core': {'inlet': 623.15, 'length': L, 'pitch': 0.064, 'gap_model': 'none', 'bypass_fraction': 0.0},
-               'types': {t: types[t]}, 'assign': [[t, 1, 1, {'flowrate': 1.0}]],
+               'types': {t: tdef}, 'assign': [[t, 1, 1, {'flowrate': 1.0}]],
                'power': {'asm': {'1': {'rings': types[t]['num_rings'], 'nduct': len(types[t]['duct_ftf']) // 2,
                                        'cells': [0.0, L], 'q': 1.0, 'pins': 'uniform'}}}}
         with S.Built(scn) as b:
@@ -516,6 +518,9 @@ def cases(tier):
         for lay in (['S', 'A', 'B', None, 'S', 'T', 'A'], ['T', 'S', 'S', 'B', None, 'A', 'S']):
             for gm in ('flow', 'no_flow'):
                 core.append(dict(layout=lay, gap_model=gm, elements=[1, 2, 3]))
+        # several low-fidelity assemblies of one type at different flows
+        for gm in ('flow', 'none'):
+            core.append(dict(layout=['U', 'A', 'U', 'B', 'U', 'A', 'U'], gap_model=gm, elements=[1, 2, 3]))
         # low-flow approximation requested, one starved assembly
         for st in (2, 5):
             core.append(dict(layout=['A'] * 7, gap_model='flow', elements=[1, 2, 3], starved=st))
